@@ -5,6 +5,23 @@
 QUIC = "QUIC transport is stubbed out in the harness build (quic-go v0.21.1 does not build with the sandbox toolchain); no property exercises it"
 
 CONFIG = {
+    "C01": {
+        "pkg": "c01",
+        "max_procs": 12,
+        "regress": "^TestRegress",
+        "regress_timeout": 300,
+        "legs": [
+            {"run": "^TestRaftLog$", "quick": (5, 12), "thorough": (120, 12), "timeout": {"quick": 900, "thorough": 7200}},
+        ],
+        "floors": {"raft-log": {"nontrivial": 10, "installed-on-non-empty": 3, "restart": 10, "follower-submitted": 10}},
+        "assumptions": [
+            QUIC,
+            "real hashicorp raft with BoltDB and file snapshots in temp dirs, go-libp2p-raft transport over loopback hosts; heartbeat/election 200 ms",
+            "operations are issued one at a time, so the acknowledged sequence is the committed sequence; an operation that returns an error ends the case as inconclusive (counted), it is never judged",
+            "crash points are clean shutdowns and stops of a peer while the others commit and snapshot; torn writes inside BoltDB are the store's contract",
+            "tracker hand-off is compared as content, per operation applied since the peer's last start, not as order",
+        ],
+    },
     "C02": {
         "pkg": "c02",
         "max_procs": 12,
